@@ -882,7 +882,7 @@ def run(tier, rep):
         nontriv.add(('pendexit', q['id']))
         if g.get('panic') or g.get('crash') or g.get('cerr') or g.get('out') != e.get('out') or (g.get('exc') or None) != (e.get('exc') or None) or g.get('verrs') or g.get('dynerrs'):
             dev = 'panic' if g.get('panic') or g.get('crash') else ('cerr' if g.get('cerr') else ('path' if g.get('out') != e.get('out') else ('exc' if (g.get('exc') or None) != (e.get('exc') or None) else 'bytecode')))
-            rep.violation('C02|%s|outer=%s|inner=%s|%s' % (q['family'], q['outer'], q['inner'].split(':')[0] if q['family'] not in ('exit-from-clause', 'handler-clause-validation') else q['inner'], dev),
+            rep.violation('C02|%s|outer=%s|inner=%s|%s' % (q['family'], q['outer'], q['inner'].split(':')[0] if q['family'] not in ('exit-from-clause', 'handler-clause-validation', 'raise-of-non-exception') else q['inner'], dev),
                           {'case': {'id': q['id'], 'src': q['src']}, 'expected': {k: e.get(k) for k in ('out', 'exc')},
                            'got': {k: short(g.get(k), 2500) for k in ('out', 'exc', 'excmsg', 'tb', 'cerr', 'panic', 'stack', 'verrs', 'dynerrs') if g.get(k)}})
     rep.nontrivial = nontriv
